@@ -8,7 +8,8 @@ Local Open Scope Z_scope.
 Inductive case :=
 (* impl_blocks: the block numbers the implementation handed to processing (empty = rejected) *)
 | Single (p : path) (head blk conf : Z) (impl_blocks : list Z)
-| Hist (start : option Z) (conf : Z) (heads : list Z) (impl_obs : list (N * Z))
+(* the scan loop over a history of polls; [None] = the head lookup of that poll failed *)
+| Hist (start : option Z) (conf : Z) (polls : list (option Z)) (impl_obs : list (N * Z))
 (* a sequence of guard evaluations on ONE set of long-lived handler objects that share the
    configured confirmation depth, as app.go wires them: the guards must stay what they are however
    often and in whatever order they have been used before *)
@@ -20,8 +21,17 @@ Inductive case :=
    [None] = the RPC answer carried no number (receipt without block number, head request without
    number). *)
 | Multi (mode : N) (conf : Z) (evs : list evaluation) (impl_blocks : list (list Z))
-(* ONE call served one head whose range holds several retry requests; flat observation *)
-| Batch (p : path) (head conf : Z) (blks : list Z) (impl_blocks : list Z)
+(* ONE call served one head ([None]: its lookup failed) whose range holds several retry requests;
+   flat observation *)
+| Batch (p : path) (ohead : option Z) (conf : Z) (blks : list Z) (impl_blocks : list Z)
+(* evaluations on one long-lived handler whose bound lookups are scripted - the k-th lookup fails, the
+   head stalls at / just below the required block, or advances while the call waits; per evaluation:
+   the event block ([None]: the receipt lookup failed or the receipt names no block), the answers the
+   implementation has been served so far (it decides how often it looks), the blocks it processed *)
+| Scripted (p : path) (conf : Z) (script : list (option Z)) (impl_evs : list scripted_eval)
+(* the implementation did not answer within the runner's deadline: nothing was observed, so there is
+   nothing to judge - but the model always answers, so the correspondence is broken *)
+| Unanswered (kind : N)
 (* EVM retry by transaction hash: the RetryV1 events of one scanned range through the real event
    handler; per event the indices of the receipt's logs whose deposits became messages *)
 | TxBatch (conf : Z) (evs : list txev) (impl_logs : list (list N)).
@@ -54,6 +64,10 @@ Definition in_domain_opt (p : path) (oh ob : option Z) : bool :=
   | None, _ => match p with EvmRetryTx | EvmRetryMsg => true | _ => false end
   end.
 
+(* scripted lookups: a failed lookup ([None]) is possible on every path *)
+Definition in_domain_ans (p : path) (a ob : option Z) : bool :=
+  in_domain p (match a with Some h => h | None => 0 end) (match ob with Some b => b | None => 0 end).
+
 Fixpoint seq_all (f : path -> Z -> Z -> list Z -> bool) (ops : list (path * Z * Z)) (obs : list (list Z)) : bool :=
   match ops, obs with
   | [], [] => true
@@ -65,23 +79,30 @@ Definition agree (c : case) : bool :=
   match c with
   (* the generated inputs are values the Go types of that path can hold *)
   | Single p head blk conf h => in_domain p head blk && zs_eqb (processed p head blk conf) h
-  | Hist st conf heads obs => forallb in_int64 heads && obs_eqb (scan st conf 0%N heads) obs
+  | Hist st conf polls obs =>
+      forallb (fun a => match a with Some h => in_int64 h | None => true end) polls && obs_eqb (scan st conf 0%N polls) obs
   | Seq conf ops obs =>
       seq_all (fun p head blk h => in_domain p head blk && zs_eqb (processed p head blk conf) h) ops obs
   | Multi _ conf evs obs =>
       all2 (fun e o => match e with (p, oh, ob) => in_domain_opt p oh ob end && zs_eqb (eval_model conf e) o) evs obs
-  | Batch p head conf blks obs =>
-      forallb (fun b => in_domain p head b) blks && zs_eqb (batch_model p head conf blks) obs
+  | Batch p ohead conf blks obs =>
+      forallb (fun b => in_domain_ans p ohead (Some b)) blks && zs_eqb (batch_model_opt p ohead conf blks) obs
+  | Scripted p conf script evs =>
+      forallb (fun a => forallb (fun e => in_domain_ans p a (fst (fst e))) evs) script
+      && all2 zs_eqb (scripted_model p conf script (map (fun e => fst (fst e)) evs)) (map snd evs)
+  | Unanswered _ => false
   | TxBatch conf evs obs => all2 (fun e o => ns_eqb (tx_model conf e) o) evs obs
   end.
 
 Definition judge (c : case) : bool :=
   match c with
   | Single p head blk conf h => single_ok p head blk conf h
-  | Hist st conf heads obs => hist_ok st conf 0%N heads obs
+  | Hist st conf polls obs => hist_ok st None conf 0%N polls obs
   | Seq conf ops obs => seq_all (fun p head blk h => single_ok p head blk conf h) ops obs
   | Multi _ conf evs obs => multi_ok conf evs obs
-  | Batch p head conf _ obs => batch_ok p head conf obs
+  | Batch p ohead conf _ obs => bound_ok p ohead conf obs
+  | Scripted p conf _ evs => scripted_ok p conf evs
+  | Unanswered _ => true
   | TxBatch conf evs obs => txs_ok conf evs obs
   end.
 
@@ -92,12 +113,15 @@ Definition tag (c : case) : N :=
       (match p with BtcScan => 0 | EvmRetryTx => 2 | EvmRetryMsg => 4 | BtcRetryMsg => 6
                   | SubRetryMsg => 8 | SubRetryEvt => 10 end
        + if accept p head blk conf then 1 else 0)%N
-  | Hist st conf heads _ => match scan st conf 0%N heads with [] => 12%N | _ => 13%N end
+  | Hist st conf polls _ => match scan st conf 0%N polls with [] => 12%N | _ => 13%N end
   | Seq conf ops _ =>
       if existsb (fun o => match o with (p, head, blk) => accept p head blk conf end) ops then 15%N else 14%N
   | Multi mode conf evs _ =>
       (16 + 2 * N.min mode 2 + if existsb (fun e => negb (is_nil (eval_model conf e))) evs then 1 else 0)%N
-  | Batch p head conf blks _ => if is_nil (batch_model p head conf blks) then 22%N else 23%N
+  | Batch p ohead conf blks _ => if is_nil (batch_model_opt p ohead conf blks) then 22%N else 23%N
+  | Scripted p conf script evs =>
+      if forallb is_nil (scripted_model p conf script (map (fun e => fst (fst e)) evs)) then 26%N else 27%N
+  | Unanswered _ => 28%N
   | TxBatch conf evs _ => if existsb (fun e => negb (is_nil (tx_model conf e))) evs then 25%N else 24%N
   end.
 
